@@ -58,6 +58,7 @@ def ddmin_steps(schedule, want, budget):
 SIMPLE_ARGS = {
     "relative": False,
     "shared_dir": False,
+    "log_debug": False,
     "r": 3.0,
     "origin": [0.0, 0.0, 0.0],
     "bounds": [[-1, -1, -1], [1, 1, 1]],
